@@ -58,7 +58,7 @@ MCPatternsOf(sd) ==
     [] sd.fam = "inner" -> {[sd EXCEPT !.pats = <<UCat(x, UCat(y, z))>>] :
                               x \in {WPlus, URep(UDot, 0, Inf, TRUE), URep(UCls({SA, SB}, FALSE), 1, Inf, TRUE), ULook("wb"), UCat(WPlus, ULit(SB))},
                               y \in {UCat(ULit(SA), ULit(SB)), UGrp(UAlt(UCat(ULit(SA), ULit(SB)), ULit(SUA)), TRUE), UCat(ULit(SEA), ULit(SA)),
-                                     URep(ULit(SA), 2, 2, TRUE), URep(ULit(SA), 12, 12, TRUE), UAlt(ULit(SB), UCat(ULit(SA), ULook("wb")))},
+                                     URep(ULit(SA), 2, 2, TRUE), URep(ULit(SA), 12, 12, TRUE), URep(ULit(SA), 0, 2, TRUE), URep(ULit(SA), 1, 3, TRUE), UAlt(ULit(SB), UCat(ULit(SA), ULook("wb")))},
                               z \in {WPlus, URep(UDot, 0, Inf, TRUE), ULit(SB), ULook("wb"), URep(ULit(SB), 0, 1, TRUE)}}
     [] sd.fam = "two" -> {[sd EXCEPT !.pats = <<x, y>>] : x \in Leaves, y \in {ULit(SUA), ULit(SB), UCat(ULit(SA), ULit(SB))}}
 MCWordSyms == {1, 2, 3, 4, 5, 6, 10, 11}
